@@ -2,6 +2,7 @@ import Sif.Driver.Util
 import Sif.Model.Clp.Hooks
 import Sif.Spec.C01
 import Sif.Spec.C03
+import Sif.Spec.C18
 /-
   Driver of the stateful family `amm`: the AMM messages and hooks on the model state.
 -/
@@ -142,6 +143,15 @@ def step (s : St) (toks : List String) : St × String :=
       (match parseNat amt, parseNat mn, parseNat y, parseChanges rest [] with
        | some amt, some mn, some y, some ch => (s, toString (Sif.Spec.C03.settleOK signer sent recv amt mn y ch))
        | _, _, _, _ => (s, "bad-op"))
+  | "chk" :: "c18.recipients" :: _tag :: hook :: lock :: nch :: rest =>
+      (match parseNat lock, parseNat nch with
+       | some lock, some nch =>
+         match parseChanges (rest.take (4 * nch)) [], parseDump (rest.drop (4 * nch)) with
+         | some ch, some pre =>
+           let pre := { pre with params := { pre.params with rewardsLockPeriod := lock } }
+           (s, toString (Sif.Spec.C18.recipientsOK (hook == "epoch") pre ch))
+         | _, _ => (s, "bad-op")
+       | _, _ => (s, "bad-op"))
   | "chk" :: pred :: _tag :: obs =>
       match parseDump obs with
       | none => (s, "bad-op")
